@@ -49,7 +49,7 @@ Inductive op :=
 | SPoll (k : nat) | SNextNow (k : nat) | SGet (k : nat) | SReset (k : nat)
 | SClone (k : nat) | SCloneReset (k : nat) | SDrop (k : nat)
 (* handles *)
-| HClone | HDropOwner | HDowngrade | HUpgrade | HDropWeak | HIntoShared | HCounts.
+| HClone | HDropOwner | HDowngrade | HUpgrade | HDropWeak | HCloneWeak | HIntoShared | HCounts.
 
 Definition upd (o : obs) (v : V) (vr : nat) (w : list nat) : obs :=
   {| val := v; ver := vr; wakers := w; okind := okind o; owners := owners o; weaks := weaks o; subs := subs o |}.
@@ -132,6 +132,9 @@ Definition step (o : obs) (x : op) : outcome (obs * out * list nat) :=
       else Ok (with_handles o (okind o) (S (owners o)) (weaks o), OBool true, [])
   | HDropWeak =>
       if weaks o =? 0 then Panic else Ok (with_handles o (okind o) (owners o) (weaks o - 1), OUnit, [])
+  | HCloneWeak =>
+      (* WeakObservable::clone: possible whenever a weak reference exists, also after the end *)
+      if weaks o =? 0 then Panic else Ok (with_handles o (okind o) (owners o) (S (weaks o)), OUnit, [])
   | HIntoShared =>
       match okind o with
       | Shared => Panic
